@@ -26,6 +26,7 @@ import (
 	"unsafe"
 
 	"golang.org/x/telemetry/internal/counter"
+	"golang.org/x/telemetry/internal/telemetry"
 	"golang.org/x/telemetry/internal/verifh/shim/vatomic"
 	"golang.org/x/telemetry/internal/verifh/shim/vsched"
 	. "golang.org/x/telemetry/internal/verifh/vhlib"
@@ -570,6 +571,160 @@ func shrinkRace() scen {
 		}
 	}
 	return sc
+}
+
+// ---- one PROCESS with two goroutines (the real `file`: f.mu, f.current, Counter.Add) sharing its
+// counter file with another process (an independent handle) that has extended the file.  Goroutine
+// A's first Add of a counter needs the extended part: under f.mu it re-maps / extends, publishes the
+// new mapping, invalidates the counters and closes the old mapping.  Goroutine B makes the first Add
+// of another counter.  B is run for k steps, then A to completion, then B to completion, for every k
+// (and the other way round): B's call straddles A's critical section at every possible point.
+// Oracle only (no model in this suite; the model of f.mu / lookup is C03's): no panic, no hang, no
+// access through a closed mapping, counts not invented.
+func twoGoroutinesCase(k int, first int, foreign string) {
+	if tooLong() {
+		return
+	}
+	dir, err := os.MkdirTemp(root, "g")
+	if err != nil {
+		panic(err)
+	}
+	defer os.RemoveAll(dir)
+	telemetry.Default = telemetry.NewDir(dir)
+	now := time.Date(2024, 1, 3, 10, 0, 0, 0, time.UTC)
+	counter.CounterTime = func() time.Time { return now }
+	os.MkdirAll(telemetry.Default.LocalDir(), 0777)
+	os.WriteFile(filepath.Join(telemetry.Default.LocalDir(), "weekends"), []byte("0\n"), 0666)
+	vatomic.ResetClosed()
+	maps = nil
+	f := counter.VerifNewFile()
+	f.Rotate1()
+	// the other process
+	hp, err := counter.VerifForeignHandle(f)
+	if err != nil {
+		panic(err)
+	}
+	switch foreign {
+	case "extended": // it has grown the file: the limit lies beyond this process's mapping
+		for i := 0; i < 4; i++ {
+			_, m1, err := hp.NewCounter(base.names[idLong1+i])
+			if err != nil {
+				panic(err)
+			}
+			if m1 != nil {
+				hp = m1
+			}
+		}
+	case "extended-same-bucket": // ... and linked a record of A's bucket beyond this process's mapping
+		for _, id := range []int{idLong1, idLong2, idLong3, idHotLong} {
+			_, m1, err := hp.NewCounter(base.names[id])
+			if err != nil {
+				panic(err)
+			}
+			if m1 != nil {
+				hp = m1
+			}
+		}
+	case "none":
+	}
+	cA := f.NewCounter(base.names[idHot1])
+	cB := f.NewCounter(base.names[idShort1])
+	s := vsched.New(false)
+	tA := s.Go(func() { cA.Add(1) })
+	tB := s.Go(func() { cB.Add(2) })
+	order := []int{tB, tA}
+	if first == 1 {
+		order = []int{tA, tB}
+	}
+	steps := 0
+	run := func(tid int) bool {
+		if s.Done(tid) {
+			return false
+		}
+		s.Step(tid)
+		steps++
+		return true
+	}
+	for i := 0; i < k && !s.Done(order[0]); i++ {
+		run(order[0])
+		if s.Last(order[0]).Blocked {
+			break
+		}
+	}
+	budget := 20000
+	for !s.Done(order[1]) && budget > 0 {
+		budget--
+		run(order[1])
+		if !s.Done(order[1]) && s.Last(order[1]).Blocked {
+			if !run(order[0]) {
+				break
+			}
+		}
+	}
+	for !s.Done(order[0]) && budget > 0 {
+		budget--
+		run(order[0])
+	}
+	status := "ok"
+	if budget == 0 {
+		status = "hang"
+		nHangs++
+	}
+	for _, tid := range []int{tA, tB} {
+		if p := s.Last(tid).Panic; p != "" {
+			status = "panic"
+			if debug {
+				fmt.Fprintln(os.Stderr, p)
+			}
+		}
+	}
+	nuse := 0
+	for _, e := range s.Events {
+		if strings.HasPrefix(e, "USE-AFTER-UNMAP") {
+			nuse++
+		}
+	}
+	vsched.Stop()
+	var extraA, extraB, persA, persB uint64
+	if status == "ok" {
+		extraA, extraB = counter.VerifExtra(cA), counter.VerifExtra(cB)
+		if name := f.CurrentName(); name != "" {
+			if d, err := os.ReadFile(name); err == nil {
+				v := decode(d, le32(d, 28), base.clone())
+				for _, ch := range v.chains {
+					for _, e := range ch {
+						switch e.id {
+						case idHot1:
+							persA = e.val
+						case idShort1:
+							persB = e.val
+						}
+					}
+				}
+			}
+		}
+	}
+	out.Case(true, "fp", foreign, I(int64(k)), I(int64(first)), status, I(int64(nuse)), U(extraA), U(persA), U(extraB), U(persB), I(int64(steps)))
+	out.Note("two-goroutines-" + foreign)
+	hp.Close()
+	f.Close()
+}
+
+func twoGoroutinesCases(thorough bool) int {
+	n := 0
+	maxK := 30
+	if thorough {
+		maxK = 70
+	}
+	for _, fg := range []string{"extended", "extended-same-bucket", "none"} {
+		for first := 0; first < 2; first++ {
+			for k := 0; k <= maxK; k++ {
+				twoGoroutinesCase(k, first, fg)
+				n++
+			}
+		}
+	}
+	return n
 }
 
 // damaged-start scenarios (outside the model: the initial file is NOT well
@@ -1126,6 +1281,7 @@ func main() {
 	runScen(dmgLimitScen())
 	runScen(dmgCycleScen())
 	runScen(dmgUnalignedScen())
+	nfp := twoGoroutinesCases(thorough)
 	nexh := n / 4
 	if thorough {
 		nexh = len(exh.plans)
@@ -1145,7 +1301,7 @@ func main() {
 		}
 		runScen(exhScen(exh.plans[(k*stride+off)%len(exh.plans)]))
 	}
-	for i := 8 + nexh; i < n; i++ {
+	for i := 8 + nexh + nfp; i < n; i++ {
 		runScen(randomScen())
 	}
 	out.Close()
